@@ -255,6 +255,41 @@ def from_dict_map(cls, params):
     return [(p, key_of(a, local)) for p, a in zip(params, ctor.args)] + post
 
 
+def argparse_table(tree, func):
+    """the options an argument parser is given: (flag, action, default, dest) per `<parser>.add_argument(...)` call of
+    the function, in order; positional arguments have the flag as dest"""
+    fn = None
+    for n in tree.body:
+        if isinstance(n, ast.FunctionDef) and n.name == func:
+            fn = n
+    if fn is None:
+        raise Unsupported('function %s not found' % func)
+    rows = []
+    for s in body_of(fn):
+        calls = [c for c in ast.walk(s) if isinstance(c, ast.Call) and isinstance(c.func, ast.Attribute)
+                 and c.func.attr == 'add_argument']
+        if not calls:
+            if any(isinstance(c, ast.Call) and isinstance(c.func, ast.Attribute) and c.func.attr.startswith('add_')
+                   for c in ast.walk(s)):
+                raise Unsupported('%s: %s' % (func, ast.unparse(s)[:60]))
+            continue
+        for c in calls:
+            if len(c.args) != 1 or not (isinstance(c.args[0], ast.Constant) and isinstance(c.args[0].value, str)):
+                raise Unsupported('%s: add_argument with %d names' % (func, len(c.args)))
+            flag = c.args[0].value
+            kw = {}
+            for k in c.keywords:
+                if k.arg in ('action', 'default', 'dest'):
+                    if not isinstance(k.value, ast.Constant):
+                        raise Unsupported('%s: %s=%s' % (func, k.arg, ast.unparse(k.value)))
+                    kw[k.arg] = k.value.value
+                elif k.arg not in ('help',):
+                    raise Unsupported('%s: add_argument(%s=...)' % (func, k.arg))
+            dest = kw.get('dest', flag.lstrip('-').replace('-', '_'))
+            rows.append((flag, kw.get('action', 'store'), repr(kw.get('default', None)), dest))
+    return rows
+
+
 def lean_list(xs):
     return '[' + ', '.join(xs) + ']'
 
@@ -265,7 +300,7 @@ def q(s):
 
 def translate(spec, repo):
     out = ['/- GENERATED by tools/py2lean_fields.py — do not edit.  Sources: %s -/' %
-           ', '.join(sorted({c['source'] for c in spec['classes']})),
+           ', '.join(sorted({c['source'] for c in spec['classes'] + spec.get('argparse', [])})),
            'namespace %s' % spec['namespace'], '',
            '/-- the field lists of one class, as read from the source -/',
            'structure ClassInfo where',
@@ -296,8 +331,15 @@ def translate(spec, repo):
         out.append('    asDict := %s,' % lean_list('(%s, %s, %s, %s)' % (q(k), q(a), q(m), 'true' if n else 'false') for k, a, m, n in ad))
         out.append('    fromDict := %s }' % lean_list('(%s, %s)' % (q(a), q(b)) for a, b in fd))
         out.append('')
-    out.append('def all : List ClassInfo := %s' % lean_list(names))
-    out.append('')
+    if spec['classes']:
+        out.append('def all : List ClassInfo := %s' % lean_list(names))
+        out.append('')
+    for a in spec.get('argparse', []):
+        rows = argparse_table(ast.parse(open(os.path.join(repo, a['source'])).read()), a['function'])
+        out.append('/-- the options of `%s` (%s): flag, action, default, dest -/' % (a['function'], a['source']))
+        out.append('def %s : List (String × String × String × String) := %s' % (
+            a['name'], lean_list('(%s, %s, %s, %s)' % tuple(q(x) for x in r) for r in rows)))
+        out.append('')
     out.append('end %s' % spec['namespace'])
     return '\n'.join(out) + '\n'
 
